@@ -166,8 +166,10 @@ def choose(mod, tasks, want):
 
 # C15's systems rebuild every state by re-executing the recorded calls (a deepcopy would cut the aliasing under test), so a
 # derived task costs (nodes x depth) executions; its two-object families (two detectors fed from ONE caller container) are
-# native to checks/c15.py.  C14 runs ensembles and fault twins whose own family list already pairs objects.
-NOT_FOR = ("C15",)
+# native to checks/c15.py.  Every step of a C18 system already runs the original and all row-permuted twins (up to 120
+# detectors alive and fed alternately in one execution): state shared between instances shows there, and a derived pair
+# would cost two orders of magnitude more per node than elsewhere.
+NOT_FOR = ("C15", "C18")
 
 
 def derive(mod, tasks, tier):
